@@ -17,6 +17,7 @@ import (
 	"os"
 	"slices"
 	"sort"
+	"strings"
 	"strconv"
 	"sync"
 	"time"
@@ -95,6 +96,7 @@ type cfg struct {
 	ownKey     []byte
 	cnrMissing bool
 	storeErr   error
+	epoch      uint64
 }
 
 type env struct {
@@ -148,7 +150,7 @@ func (f fsChain) Get(cid.ID) (container.Container, error) {
 	return container.Container{}, nil
 }
 func (f fsChain) IsOwnPublicKey(k []byte) bool { return string(k) == string(f.c.ownKey) }
-func (f fsChain) CurrentEpoch() uint64         { return 10 }
+func (f fsChain) CurrentEpoch() uint64         { return 10 + f.c.epoch }
 func (f fsChain) CurrentBlock() uint32         { return 100 }
 func (f fsChain) CurrentEpochDuration() uint64 { return 240 }
 func (f fsChain) LocalNodeUnderMaintenance() bool {
@@ -302,6 +304,7 @@ func dial(srv *objectsvc.Server, r *rec) (protoobject.ObjectServiceClient, func(
 type result1 struct {
 	Method   string   `json:"method"`
 	Scenario string   `json:"scenario"`
+	Base     string   `json:"base"` // scenario without the _ttl1 / _nometa suffix
 	Code     uint32   `json:"code"`     // status code of the (first) response; 0 = OK
 	RPCErr   bool     `json:"rpc_err"`  // transport-level error instead of a response
 	Effects  []string `json:"effects"`  // storage / network / data effects recorded by the fakes
@@ -309,7 +312,11 @@ type result1 struct {
 	DataMsgs int      `json:"data_msgs"` // response messages carrying header/payload/result data
 }
 
-var scenarios = []string{"unsigned", "badsig", "maintenance", "bad_token", "info_err", "basic_deny", "eacl_deny", "ok"}
+// "ok" comes first on purpose: a served request precedes every refusal, so state kept by the
+// server between requests (caches of verdicts, of the maintenance flag, ...) is exercised.
+// *_ttl1 variants send the same request with TTL 1 (the "last hop" form of a request).
+var scenarios = []string{"ok", "unsigned", "badsig", "maintenance", "bad_token", "info_err", "basic_deny", "eacl_deny",
+	"ok_ttl1", "unsigned_ttl1", "badsig_ttl1", "maintenance_ttl1", "basic_deny_ttl1", "eacl_deny_ttl1", "maintenance_nometa"}
 
 func isEffect(s string) bool {
 	switch s {
@@ -320,8 +327,8 @@ func isEffect(s string) bool {
 	return len(s) > 6 && s[:6] == "PANIC:"
 }
 
-func metaHdr(badToken bool) *protosession.RequestMetaHeader {
-	m := &protosession.RequestMetaHeader{Version: version.Current().ProtoMessage(), Ttl: 2}
+func metaHdr(badToken bool, ttl uint32) *protosession.RequestMetaHeader {
+	m := &protosession.RequestMetaHeader{Version: version.Current().ProtoMessage(), Ttl: ttl}
 	if badToken {
 		m.SessionToken = &protosession.SessionToken{Body: &protosession.SessionToken_Body{Id: []byte{1, 2, 3}}}
 	}
@@ -348,8 +355,15 @@ func main() {
 
 	methods := []string{"Get", "Head", "GetRange", "Delete", "SearchV2", "Put"}
 	for _, m := range methods {
-		for _, sc := range scenarios {
+		for _, scFull := range scenarios {
 			*c = cfg{basic: true, sticky: true, eacl: aclsvc.ErrNotMatched}
+			sc, ttl, noMeta := scFull, uint32(2), false
+			if strings.HasSuffix(sc, "_ttl1") {
+				sc, ttl = strings.TrimSuffix(sc, "_ttl1"), 1
+			}
+			if strings.HasSuffix(sc, "_nometa") {
+				sc, noMeta = strings.TrimSuffix(sc, "_nometa"), true
+			}
 			switch sc {
 			case "maintenance":
 				c.maint = true
@@ -363,10 +377,13 @@ func main() {
 				c.eacl = errors.New("denied by table")
 			}
 			r.take()
-			res := result1{Method: m, Scenario: sc}
+			res := result1{Method: m, Scenario: scFull, Base: sc}
 			sign := sc != "unsigned"
 			mutate := sc == "badsig"
-			mh := metaHdr(sc == "bad_token")
+			mh := metaHdr(sc == "bad_token", ttl)
+			if noMeta {
+				mh = nil
+			}
 			var code uint32
 			var rpcErr error
 			data := 0
@@ -513,6 +530,9 @@ func main() {
 			sort.Strings(res.Calls)
 			_ = enc.Encode(res)
 		}
+	}
+	for _, line := range proxyCases(srv, r, c) {
+		_ = enc.Encode(line)
 	}
 	// C45 "only": replication is served in maintenance
 	*c = cfg{maint: true}
